@@ -65,7 +65,9 @@ namespace cnl {
         }
         [[nodiscard]] constexpr auto step1(Lhs const& lhs, Rhs const& rhs) const -> result_type
         {
-            return (rhs < 0) ? step2(-lhs, -rhs) : step2(lhs, rhs);
+            // negate in the result type: -lhs of an unsigned Lhs narrower than Rhs would wrap
+            return (rhs < 0) ? step2(-static_cast<result_type>(lhs), -static_cast<result_type>(rhs))
+                             : step2(lhs, rhs);
         }
 
     public:
